@@ -712,13 +712,15 @@ func (p *Parameters) ReadFrom(r io.Reader) (n int64, err error) {
 			return int64(n), fmt.Errorf("buffer.ReadAsUint64[int]: %w", err)
 		}
 
-		bytes := make([]byte, size)
-
-		var inc int
-		if inc, err = r.Read(bytes); err != nil {
-			return n + int64(inc), fmt.Errorf("io.Reader.Read: %w", err)
+		// read at most size bytes, allocating as they arrive (size comes from the stream)
+		bytes, err := io.ReadAll(io.LimitReader(r, int64(size)))
+		if err == nil && len(bytes) != size {
+			err = io.ErrUnexpectedEOF
 		}
-		return n + int64(inc), p.UnmarshalJSON(bytes)
+		if err != nil {
+			return n + int64(len(bytes)), fmt.Errorf("io.Reader.Read: %w", err)
+		}
+		return n + int64(len(bytes)), p.UnmarshalJSON(bytes)
 
 	default:
 		return p.ReadFrom(bufio.NewReader(r))
